@@ -392,23 +392,24 @@ def _is_acc_colours(case):
     '!$acc loop' directly on a loop over colours is only this root cause
     if the loop was coloured *after* the directive had been added (a
     directive accepted for an existing loop over colours is a different
-    defect)."""
+    defect); the harness records the type of every step's target loop."""
     viol = case.get("viol", {})
     if viol.get("kind") != "colours_in_region":
         return False
     if viol.get("directive") == "acc parallel":
         return True
-    if viol.get("directive") != "acc loop":
+    if viol.get("directive") != "acc loop" or "ttypes" not in case:
         return False
-    accepted = [step["t"] for step, status in
-                zip(case.get("steps", []), case.get("status", []))
-                if status == "ok"]
-    if "acc_loop" not in accepted:
-        return False
-    first = accepted.index("acc_loop")
-    last_acc = len(accepted) - 1 - accepted[::-1].index("acc_loop")
-    # every accepted '!$acc loop' is followed by an accepted colouring
-    return "colour" in accepted[last_acc + 1:] and first <= last_acc
+    # no worksharing directive was ever accepted for a loop that was a
+    # loop over colours at that time: the directive got there by colouring
+    for step, status, ttype in zip(case.get("steps", []),
+                                   case.get("status", []),
+                                   case["ttypes"]):
+        if (status == "ok" and ttype == "colours" and
+                step["t"] in ("acc_loop", "omp_do", "omp_pardo") and
+                not step.get("seq")):
+            return False
+    return True
 
 
 CLASSIFIERS = {
@@ -511,6 +512,7 @@ def make_machine(ctx, info_cache, lib):
                     continue
                 case = dict(self.case, steps=list(self.case["steps"]),
                             status=[st_ for _, st_ in self.sess.log],
+                            ttypes=list(self.sess.ttypes),
                             viol=viol, where=where)
                 bucket = bucket_of(viol)
                 strict = viol["kind"] == "uncoloured_parallel"
